@@ -12,12 +12,13 @@ RULE = ("AEAD sweeps: plaintext lengths {0,1,15,16,17,33,1000,70000} x {AES-GCM,
 TRUSTED_BASE = ["model/Crypto.v: idealised AEAD (correctness, integrity, key binding) and KDF as section hypotheses",
                 "the sweeps and the census run on the real ciphers"]
 ASSUMPTIONS = ["cryptographic strength of the primitives and RNG quality are assumed, not proved",
-               "asymmetric (age/X25519) folders are not exercised"]
+               "the asymmetric cipher (age/X25519) is exercised at the AeadPack level (encrypt_asymmetric / decrypt_asymmetric); shared folders built on it are not"]
 
 
 def corpus():
     return ["c10 k_unlock mode=unlock", "c10 k_derive mode=derive",
-            "c10 k_a0 mode=aead cipher=aes len=0 seed=1", "c10 k_x0 mode=aead cipher=xchacha len=0 seed=2"]
+            "c10 k_a0 mode=aead cipher=aes len=0 seed=1", "c10 k_x0 mode=aead cipher=xchacha len=0 seed=2",
+            "c10 k_g0 mode=aead cipher=x25519 len=0 seed=3", "c10 k_g1 mode=aead cipher=x25519 len=300 seed=4"]
 
 
 def gen_cases(rng, tier):
@@ -25,7 +26,7 @@ def gen_cases(rng, tier):
     lens = [1, 15, 16, 17, 33, 1000, 70000] if tier == "quick" else [1, 2, 15, 16, 17, 31, 32, 33, 255, 256, 1000, 4096, 70000, 3000000]
     k = 0
     for ln in lens:
-        for c in ("aes", "xchacha"):
+        for c in ("aes", "xchacha", "x25519"):
             for rep in range(1 if tier == "quick" else 4):
                 out.append("c10 a%d mode=aead cipher=%s len=%d seed=%d" % (k, c, ln, rng.randrange(1 << 30))); k += 1
     n = 6 if tier == "quick" else 100
@@ -51,7 +52,7 @@ def oracle(case, obs):
         if kv.get("wrongkey") != "rejected":
             fails.append({"oracle": "key_bound", "detail": "another key opened the ciphertext: %s" % case})
         if kv.get("accepted") != "0":
-            fails.append({"oracle": "tamper", "kinds": kv.get("kinds"), "detail": "%s of %s tampered packs were accepted (%s): %s" % (kv.get("accepted"), kv.get("tampered"), kv.get("kinds"), case)})
+            fails.append({"oracle": "tamper", "kinds": kv.get("kinds"), "cipher": dict(x.split("=", 1) for x in case.split()[2:] if "=" in x).get("cipher"), "detail": "%s of %s tampered packs were accepted (%s): %s" % (kv.get("accepted"), kv.get("tampered"), kv.get("kinds"), case)})
     elif t[0] == "derive":
         if kv.get("distinct") != kv.get("expected"):
             fails.append({"oracle": "derive_separates", "detail": "%s derivations gave %s distinct keys" % (kv.get("keys"), kv.get("distinct"))})
@@ -92,7 +93,7 @@ MANIFEST = {
              "produced for that key, nonce and plaintext (so bit flips, truncation, extension, swapped parts, wrong nonce size "
              "and other keys fail); unlock succeeds only with a password whose derived key opens the meta pack and a failed "
              "unlock leaves no key; one stream value per encryption gives pairwise distinct nonces. On the implementation: "
-             "tamper sweeps over both ciphers, key pools, derivation pool, failed-unlock state and a nonce census over every "
+             "tamper sweeps over the three ciphers, key pools, derivation pool, failed-unlock state and a nonce census over every "
              "AeadPack of generated accounts"),
     "design_ref": "DESIGN.md §4 C10",
     "note": "partial by nature: primitive strength and RNG quality are hypotheses; the model is not executed (no executable primitives) — the implementation sweeps are exploration",
